@@ -74,8 +74,19 @@ structure Ev where
   ttl : UInt8
   hasCb : Bool            -- p2p.onPacketCbFuncs[pkt.protocol] != nil
   hash : UInt64           -- pkt.hashOfPacket
+  protoId : UInt8 := 5    -- pkt.protocol.ID()      (0 = p2pProtoControl.ID())
+  protoVer : UInt8 := 0   -- pkt.protocol.Version() (p2pProtoControl = 0x0000)
+  sub : Nat := 0x0100     -- pkt.subProtocol
+
+/-- handlers of the control protocol (topology management; their bodies are not modelled) -/
+inductive Ctl where
+  | queryReq | queryResp | rttReq | rttResp | connReq | connResp
+  deriving DecidableEq, Repr
 
 inductive Outcome where
+  | control (c : Ctl)    -- dispatched to a p2p control handler: never reaches an application callback
+  | closeCtlSub          -- control protocol, unknown sub protocol: CloseByError
+  | closeCtlProto        -- protocol id of the control protocol but another version: CloseByError
   | closeNotRegistered   -- p.CloseByError(ErrNotRegisteredProtocol), first guard
   | dropUndetermined
   | dropSelfSrc
@@ -103,5 +114,101 @@ def onPacket (pool : Pool) (e : Ev) : Pool × Outcome :=
       let r := put pool e.hash
       if r.2 then (r.1, .deliver) else (r.1, .dropDuplicate)
   else (pool, .closeNoCallback)
+
+/-! ### the whole of `onPacket`: control-protocol branch + application branch -/
+
+def ctlOf (sub : Nat) : Option Ctl :=
+  if sub = 0x0700 then some .queryReq else if sub = 0x0800 then some .queryResp
+  else if sub = 0x0B00 then some .rttReq else if sub = 0x0C00 then some .rttResp
+  else if sub = 0x0900 then some .connReq else if sub = 0x0A00 then some .connResp
+  else none
+
+/-- `PeerToPeer.onPacket`, every branch. -/
+def onPacketFull (pool : Pool) (e : Ev) : Pool × Outcome :=
+  if !e.peerHasProto then (pool, .closeNotRegistered)
+  else if e.protoId == 0 then
+    if e.protoVer == 0 then
+      match ctlOf e.sub with
+      | some c => (pool, .control c)
+      | none => (pool, .closeCtlSub)
+    else (pool, .closeCtlProto)
+  else onPacket pool e
+
+/-! ### relaying (protocolHandler.onPacketResult → manager.send → PeerToPeer.Send →
+    sendRoutine → Peer.send), for a packet that was received and delivered -/
+
+def ctParent : Nat := 1
+def ctChildren : Nat := 2
+def ctUncle : Nat := 3
+def ctNephew : Nat := 4
+def ctFriend : Nat := 5
+def ctOther : Nat := 6
+def destSeed : UInt8 := 1
+def destRoot : UInt8 := 2
+
+/-- a connected peer as far as sending is concerned -/
+structure PeerInfo where
+  id : Bytes
+  connType : Nat
+  hasProto : Bool
+  known : List UInt64       -- hashes in `p.pool` (packets received from / written to that peer)
+  closed : Bool := false
+
+/-- `onPacketResult`: relay iff the reactor asked for it, the packet is BroadcastAll (ttl 0) and
+    not addressed to a single peer. -/
+def relayWanted (isRelay : Bool) (e : Ev) : Bool := isRelay && e.ttl == 0 && e.dest != destPeer
+
+/-- `Peer.isDuplicatedToSend` (relayed packets have `forceSend = false`; `sender` is the peer the
+    packet was received from) -/
+def dupToSend (p : PeerInfo) (src sender : Bytes) (hash : UInt64) : Bool :=
+  p.id == src || p.id == sender || p.known.contains hash
+
+def hasRootFlag (role : UInt8) : Bool := role &&& roleRoot == roleRoot
+
+/-- first-round targets of `sendRoutine` for a ttl-0 packet: (selective flooding to friends?,
+    connection types for `sendToPeers`) -/
+def relayTargets (selfRole : UInt8) (dest : UInt8) : Bool × List Nat :=
+  if dest == destAny then (hasRootFlag selfRole, [ctChildren, ctOther])
+  else if dest == destRoot then
+    if hasRootFlag selfRole then (true, []) else (false, [ctParent])
+  else if dest == destSeed then
+    if hasRootFlag selfRole then (true, if selfRole == roleRoot then [ctChildren] else [])
+    else (false, [ctParent])
+  else (false, [])
+
+def countProto (peers : List PeerInfo) (cts : List Nat) : Nat :=
+  (peers.filter (fun p => p.hasProto && cts.contains p.connType)).length
+
+/-- `PeerToPeer.available(pkt)` for a ttl-0 packet not addressed to a single peer -/
+def available (selfRole : UInt8) (peers : List PeerInfo) (dest : UInt8) : Bool :=
+  if dest == destAny then
+    countProto peers ([ctChildren, ctNephew, ctOther] ++ (if hasRootFlag selfRole then [ctFriend] else [])) ≥ 1
+  else if dest == destRoot then
+    countProto peers (if hasRootFlag selfRole then [ctFriend] else [ctParent, ctUncle]) ≥ 1
+  else countProto peers [ctParent, ctChildren, ctUncle, ctNephew, ctFriend, ctOther] ≥ 1
+
+/-- ids of the peers the relayed packet is enqueued to (at most 3 friends: then selective
+    flooding selects every friend but the source). -/
+def relaySend (selfRole : UInt8) (peers : List PeerInfo) (e : Ev) (sender : Bytes) : List Bytes :=
+  if !available selfRole peers e.dest then []
+  else
+    let t := relayTargets selfRole e.dest
+    let cand := peers.filter (fun p => p.hasProto && !p.closed &&
+      ((t.1 && p.connType == ctFriend) || t.2.contains p.connType))
+    (cand.filter (fun p => !dupToSend p e.src sender e.hash)).map (·.id)
+
+structure Node where
+  pool : Pool
+  selfRole : UInt8
+  peers : List PeerInfo
+
+/-- `receiveRoutine` + `onPacket` + reactor answer `isRelay` + relay: a packet arrives from the
+    peer at index `from`. Returns the new node, the outcome and the ids the packet is relayed to. -/
+def nodeStep (n : Node) (frm : Nat) (e : Ev) (isRelay : Bool) : Node × Outcome × List Bytes :=
+  -- receiveRoutine: p.pool.Put(pkt.hashOfPacket) for the sending peer, before the callback
+  let peers := n.peers.mapIdx (fun i p => if i = frm then { p with known := e.hash :: p.known } else p)
+  let r := onPacketFull n.pool e
+  let relays := if r.2 = .deliver ∧ relayWanted isRelay e then relaySend n.selfRole peers e e.peerId else []
+  ({ n with pool := r.1, peers := peers }, r.2, relays)
 
 end Goloop.C33
